@@ -466,6 +466,74 @@ def _prec_batch(ctx, count):
     )
 
 
+def _count_orderings(n, edges):
+    """number of topological orderings of the DAG (0 if cyclic): dynamic programme over vertex subsets"""
+    pred = [0] * n
+    for u, v in edges:
+        pred[v] |= 1 << u
+    f = [0] * (1 << n)
+    f[0] = 1
+    for mask in range(1 << n):
+        if f[mask]:
+            for v in range(n):
+                if not mask >> v & 1 and pred[v] & ~mask == 0:
+                    f[mask | 1 << v] += f[mask]
+    return f[(1 << n) - 1]
+
+
+def search(ctx):
+    """the tie is broken but no small graph shows a wrong answer: sparse graphs on 8-9 vertices, whose tens of thousands of
+    orderings are counted independently (subset DP) and checked one by one (each a permutation of the vertices with every
+    edge forward, no ordering twice)"""
+    import time
+    from ..core import Finding
+    T = _impl()
+    rng = ctx.rng
+    t0 = time.time()
+    budget = 100 if ctx.quick() else 600
+    n_graphs = 0
+    while time.time() - t0 < budget:
+        n = rng.choice([8, 8, 9])
+        k = rng.randint(0, 3 if n == 8 else 6)
+        order = list(range(n))
+        rng.shuffle(order)
+        pos = {v: i for i, v in enumerate(order)}
+        edges = set()
+        while len(edges) < k:
+            u, v = rng.sample(range(n), 2)
+            if pos[u] < pos[v]:
+                edges.add((u, v))
+        want = _count_orderings(n, edges)
+        if want > 130000:
+            continue
+        graph = {u: {v for a, v in edges if a == u} for u in range(n)}
+        n_graphs += 1
+        ctx.evaluations += 1
+        case = [[u, sorted(graph[u])] for u in range(n)]
+        try:
+            res = T.toposort_all(graph)
+        except Exception as e:  # noqa: BLE001
+            return Finding("search", case, {"error": type(e).__name__}, "(independent count)", False, f"toposort_all raised {type(e).__name__}")
+        ok = all(sorted(o) == list(range(n)) and all(o.index(u) < o.index(v) for u, v in edges) for o in res)
+        if len(res) != want or len({tuple(o) for o in res}) != len(res) or not ok:
+            return Finding("search", case, {"returned": len(res)}, "(independent count)", False,
+                           f"toposort_all returned {len(res)} orderings ({len({tuple(o) for o in res})} distinct, all valid: {ok}); the graph has {want}")
+    ctx.notes.append(f"failing-input search: {n_graphs} sparse graphs on 8-9 vertices, orderings counted and checked: none wrong")
+    return None
+
+
+def replay_case(payload):
+    case = payload["case"]
+    T = _impl()
+    n = len(case)
+    edges = {(u, v) for u, ss in case for v in ss}
+    graph = {u: set(ss) for u, ss in case}
+    res = T.toposort_all(graph)
+    want = _count_orderings(n, edges)
+    ok = len(res) == want and len({tuple(o) for o in res}) == len(res)
+    return ok, f"toposort_all returned {len(res)} orderings; the graph has {want}", {"returned": len(res)}
+
+
 TECHNIQUE = ("Coq proof (induction on fuel and lists; invariant: in-degree = number of unplaced predecessors) that the model of "
              "toposort / toposort_all meets the permutation-with-forward-edges specification for every graph and every set iteration "
              "order; model tied to the code by exhaustive small-domain + random correspondence evaluated with vm_compute")
